@@ -496,6 +496,16 @@ func checkT1(c *Ctx, jr *joinRoles) {
 			for _, in := range b.Instrs {
 				if st, ok := fieldStore(in, "passAt"); ok && rootStructOf(st.Addr.(*ssa.FieldAddr)) == jr.d.Named {
 					writers++
+					// the reference point of the timeout is the moment of the pass: time.Now() itself (a
+					// moment shifted into the future makes elements wait longer than Timeout, one shifted
+					// into the past flushes early)
+					vs := p.SymX(st.Val)
+					for vs.Op == "conv" && len(vs.Args) == 1 {
+						vs = vs.Args[0]
+					}
+					if !(vs.Op == "call" && vs.Name == "time.Now" && len(vs.Args) == 0) {
+						problems = append(problems, "passAt is set to "+vs.String()+" at "+p.InstrPos(in)+", not to time.Now(): the timeout is measured from a shifted moment, so elements wait longer (or shorter) than Timeout")
+					}
 				}
 			}
 		}
